@@ -83,15 +83,20 @@ def selectSlices (C : Crypto) (getBlock : Nat → Option Block) (height k : Nat)
       | .error e => .error e
       | .ok rest => .ok (b ++ rest)
 
+/-- the chain sample: zeros for a genesis block, else slices of ancestors selected by the hash -/
+def chainSample (C : Crypto) (P : Params) (cs : CoinState) (sh : Bytes) (s : Summary) (height : Nat) :
+    Except Err Bytes :=
+  if height = 0 then .ok (zeros (P.sampleCount * P.sampleSize))
+  else
+    selectSlices C (fun h => (cs.byHeightAt.get? s.prev).bind (·.get? h)) height P.sampleSize
+      P.sampleCount sh
+
 /-- `construct_pow_evidence_after_scrypt` -/
 def evidenceAfterScrypt (C : Crypto) (P : Params) (cs : CoinState) (sh : Bytes) (s : Summary)
-    (height : Nat) (txs : List CTx) : Except Err Evidence := do
-  let sample ←
-    if height = 0 then pure (zeros (P.sampleCount * P.sampleSize))
-    else
-      selectSlices C (fun h => (cs.byHeightAt.get? s.prev).bind (·.get? h)) height P.sampleSize
-        P.sampleCount sh
-  pure ⟨sh, sample, C.blake2 (sh ++ sample ++ encTxList txs)⟩
+    (height : Nat) (txs : List CTx) : Except Err Evidence :=
+  match chainSample C P cs sh s height with
+  | .error e => .error e
+  | .ok sample => .ok ⟨sh, sample, C.blake2 (sh ++ sample ++ encTxList txs)⟩
 
 /-- `construct_pow_evidence` -/
 def constructEvidence (C : Crypto) (P : Params) (cs : CoinState) (s : Summary) (height : Nat)
